@@ -140,6 +140,7 @@ def saved_doc(obj, ctx, spec):
 # (a) clip evaluation arrangements
 
 MUTS = ["drop", "dup", "foreign_target", "foreign_source", "split", "both_null_extra", "swap_sides_none", "merge", "dup_and_drop", "dup_and_drop"]
+RARE_MUTS = ["dup_x255", "dup_x256", "dup_x511"]  # one pair mentioned by 256 / 257 / 512 matches (counters kept in 8 bits wrap there)
 
 
 @st.composite
@@ -149,6 +150,8 @@ def ce_case(draw):
     npair = draw(st.integers(0, min(k, m)))
     pairing = draw(st.sampled_from(["same", "same", "same", "different", "different_equal_times", "same_uuid_other_content"]))
     muts = draw(st.lists(st.sampled_from(MUTS), min_size=0, max_size=2))
+    if npair and draw(st.integers(0, 24)) == 0:
+        muts = [draw(st.sampled_from(RARE_MUTS))]
     return {"k": k, "m": m, "npair": npair, "pairing": pairing, "muts": muts, "salt": draw(st.integers(1, 2**32)), "pick": draw(st.integers(0, 10)),
             "hash_twins": draw(st.integers(0, 3)) == 0}
 
@@ -156,7 +159,7 @@ def ce_case(draw):
 def check_ce(spec, ctx):
     from soundevent import data
 
-    if spec["pairing"] not in ("same", "different", "different_equal_times", "same_uuid_other_content") or any(m not in MUTS for m in spec["muts"]) or spec["npair"] > min(spec["k"], spec["m"]):
+    if spec["pairing"] not in ("same", "different", "different_equal_times", "same_uuid_other_content") or any(m not in MUTS + RARE_MUTS for m in spec["muts"]) or spec["npair"] > min(spec["k"], spec["m"]):
         raise ValueError("malformed spec")
     ids = Ids(spec["salt"])
     rec, clips = base_objects(ids, 2, equal_times=spec["pairing"] == "different_equal_times")
@@ -194,6 +197,8 @@ def check_ce(spec, ctx):
             arr.pop(pick % len(arr)); applied.append(mu)
         elif mu == "dup" and arr:
             arr.append(list(arr[pick % len(arr)])); applied.append(mu)
+        elif mu in RARE_MUTS and arr:
+            arr.extend(list(arr[pick % len(arr)]) for _ in range(int(mu[5:]))); applied.append(mu)
         elif mu == "dup_and_drop" and len(arr) >= 2:
             # one event mentioned twice while another is mentioned by no match: every count still agrees
             i = pick % len(arr)
@@ -443,20 +448,22 @@ def check_project(spec, ctx):
 
 @st.composite
 def clip_case(draw):
-    base = draw(st.sampled_from([0.0, 1.0, 0.1, 2.5, 1e6, 1e-9]))
-    rel = draw(st.sampled_from(["equal", "ulp_before", "ulp_after", "before", "after", "zero_negzero"]))
+    # also around the end of the recording (10 s at 8 kHz): at it, half a sample and one sample after it, well after it
+    base = draw(st.sampled_from([0.0, 1.0, 0.1, 2.5, 1e6, 1e-9, 10.0, 10.00005, 10.000125, 9.99995, 12.0]))
+    rel = draw(st.sampled_from(["equal", "ulp_before", "ulp_after", "before", "after", "zero_negzero", "within_sample_after", "within_sample_before"]))
     return {"base": base, "rel": rel, "salt": draw(st.integers(1, 2**32)), "ints": draw(st.booleans())}
 
 
 def check_clip(spec, ctx):
     from soundevent import data
 
-    if spec["rel"] not in ("equal", "ulp_before", "ulp_after", "before", "after", "zero_negzero"):
+    if spec["rel"] not in ("equal", "ulp_before", "ulp_after", "before", "after", "zero_negzero", "within_sample_after", "within_sample_before"):
         raise ValueError("malformed spec")
     ids = Ids(spec["salt"])
     rec, _ = base_objects(ids, 0)
     s = spec["base"]
-    e = {"equal": s, "ulp_before": math.nextafter(s, -math.inf), "ulp_after": math.nextafter(s, math.inf), "before": s - 1.0, "after": s + 1.0, "zero_negzero": s}[spec["rel"]]
+    e = {"equal": s, "ulp_before": math.nextafter(s, -math.inf), "ulp_after": math.nextafter(s, math.inf), "before": s - 1.0, "after": s + 1.0, "zero_negzero": s,
+         "within_sample_after": s + 0.00005, "within_sample_before": s - 0.00005}[spec["rel"]]
     if spec["rel"] == "zero_negzero":
         s, e = 0.0, -0.0
     if spec["ints"] and float(int(s)) == s and float(int(e)) == e:
@@ -465,6 +472,11 @@ def check_clip(spec, ctx):
     ctx.case(spec, nontrivial=spec["rel"] in ("equal", "ulp_before", "ulp_after", "zero_negzero"), labels=[spec["rel"], "exp=ok" if exp else "exp=reject"])
     kw = {"uuid": ids(), "recording": rec, "start_time": s, "end_time": e}
     try_paths(ctx, spec, data.Clip, kw, exp, f"Clip(start_time={s!r}, end_time={e!r})")
+    if exp:
+        # what was accepted is what was given: the constructed clip has these two times, in this order
+        for how, obj in (("constructor", data.Clip(**kw)), ("model_validate", data.Clip.model_validate(dict(kw, uuid=ids()))), ("model_validate_json", data.Clip.model_validate_json(json.dumps({"uuid": ids(), "recording": json.loads(rec.model_dump_json()), "start_time": s, "end_time": e})))):
+            if obj.start_time > obj.end_time or float(obj.start_time) != float(s) or float(obj.end_time) != float(e):
+                ctx.fail(f"Clip(start_time={s!r}, end_time={e!r}) built through the {how} has start_time={obj.start_time!r}, end_time={obj.end_time!r}: a clip never starts after it ends, and keeps the times it was given", spec, [obj.start_time, obj.end_time], [s, e], kind="clip_times_changed")
     # the same two times in other (value-preserving) representations, as they come out of numpy code, a database or a text file
     import decimal
     import fractions
